@@ -3,6 +3,7 @@
    loop of driver/netconf/read.go (message delimiting, echo skipping, filing by message-id) and
    the RPC wait of rpc.go over an arbitrary log of chunks / writes / deadlines. *)
 From Scrapli Require Import Bytes BytesLemmas Regex PlatformTypes Generated Channel Netconf NetconfLemmas NcSession NcSessionLemmas NcSegLemmas.
+From Scrapli Require NcExtraLemmas.
 
 (* message-ids: exactly one consecutive id per request actually built, from the generated initial
    id, in order (unique and strictly increasing) — for every operation list and every log *)
@@ -90,6 +91,24 @@ Theorem C08_message_any_split : forall v st cs m id,
               (forall j, j <> id -> store_get st' j = store_get st j).
 Proof. exact message_any_split. Qed.
 
+
+(* the id advances on EVERY request that is built -- also when the call ends in a timeout or an
+   error -- and on no other occasion (unique and strictly increasing, whatever happened before) *)
+Theorem C08_id_advances_always : forall s o seg,
+  (forall p, op_payload o = BOk p -> n_next_id (fst (do_rpc s o seg)) = n_next_id s + 1) /\
+  (op_payload o = BErr -> n_next_id (fst (do_rpc s o seg)) = n_next_id s /\ snd (do_rpc s o seg) = RBuildErr).
+Proof. exact NcExtraLemmas.id_advances_always. Qed.
+
+(* a call that times out (or fails) deletes nothing from the store: its own late reply and every
+   other entry stay filed under their ids *)
+Theorem C08_late_reply_kept : forall s o seg p, op_payload o = BOk p -> n_panic s = false ->
+  existsb NcExtraLemmas.is_deadline seg = true \/ existsb NcExtraLemmas.is_err seg = true ->
+  let s2 := fst (fst (run_segment s seg false false)) in
+  fst (do_rpc s o seg) = NcExtraLemmas.with_next_id s2 (n_next_id s + 1) /\
+  (forall j, store_get (n_store (fst (do_rpc s o seg))) j = store_get (n_store s2) j) /\
+  (forall j, store_get (n_store s) j <> None -> store_get (n_store (fst (do_rpc s o seg))) j <> None).
+Proof. exact NcExtraLemmas.late_reply_kept. Qed.
+
 Print Assumptions C08_ids.
 Print Assumptions C08_own_reply.
 Print Assumptions C08_own_request.
@@ -99,3 +118,5 @@ Print Assumptions C08_late_reply_harmless.
 Print Assumptions C08_no_panic.
 Print Assumptions C08_reply_never_lost.
 Print Assumptions C08_message_any_split.
+Print Assumptions C08_id_advances_always.
+Print Assumptions C08_late_reply_kept.
